@@ -261,8 +261,17 @@ impl<W: Write> Trace<W> {
         self.step(sim, "SrvFrame", json!({"tick": false, "dt": 0}));
     }
 
-    /// Perfect-link rounds: tick, deliver everything, client frames, deliver acks.
+    /// Perfect-link rounds followed by the quiescence and at-rest claims.
     pub fn settle(&mut self, sim: &mut Sim, rounds: usize) {
+        self.rounds(sim, rounds);
+        self.step(sim, "Quiesce", json!({}));
+        // one more tick with nothing changed and everything acknowledged: the server must be silent
+        self.step(sim, "SrvFrame", json!({"tick": true, "dt": 0}));
+        self.step(sim, "AtRest", json!({}));
+    }
+
+    /// Perfect-link rounds: tick, deliver everything, client frames, deliver acks.
+    pub fn rounds(&mut self, sim: &mut Sim, rounds: usize) {
         let names: Vec<String> = sim.clients.iter().map(|c| c.name.clone()).collect();
         for _ in 0..rounds {
             self.step(sim, "SrvFrame", json!({"tick": true, "dt": 0}));
@@ -298,10 +307,6 @@ impl<W: Write> Trace<W> {
             }
         }
         self.step(sim, "SrvFrame", json!({"tick": false, "dt": 0}));
-        self.step(sim, "Quiesce", json!({}));
-        // one more tick with nothing changed and everything acknowledged: the server must be silent
-        self.step(sim, "SrvFrame", json!({"tick": true, "dt": 0}));
-        self.step(sim, "AtRest", json!({}));
     }
 }
 
